@@ -58,12 +58,19 @@ INFOS = [
     ([], ["Apache-2.0 OR MIT"], ["Bob <bob@example.com>", "Alice"]),
     (["Copyright (C) 2019 José Álvarez"], ["0BSD"], []),
     (["SPDX-FileCopyrightText: 2020 Jane Doe", "SPDX-FileCopyrightText: 2022 Jane Doe"], ["MIT"], []),
+    # the remaining non-empty subsets of {--copyright, --license, --contributor}: each of them alone is a valid request
+    ([], [], ["Alice"]),
+    ([], [], ["Bob <bob@example.com>", "Alice", "张三"]),
+    ([], ["MIT"], []),
+    (["SPDX-FileCopyrightText: 2020 Jane Doe"], [], ["Alice"]),
 ]
+#: indices of the requests that hold contributors only
+CONTRIBUTOR_ONLY = [i for i, (c, l, n) in enumerate(INFOS) if not c and not l]
 
 
 def count_blocks(text, case):
     """how often does the requested notice stand in the text (1 = one header block)"""
-    probe = (["SPDX-License-Identifier: " + l for l in case["lic"]] + case["cpr"])[0]
+    probe = (["SPDX-License-Identifier: " + l for l in case["lic"]] + case["cpr"] + ["SPDX-FileContributor: " + c for c in case["con"]])[0]
     return text.count(probe)
 
 
@@ -123,8 +130,8 @@ class TheoremStream(Stream):
     name = "theorem"
     rule = ("add_header_to_file run 5 times on a scratch file: every style of the table (and the .license pseudo style) x {default, "
             "--multi-line where supported} x 14 bodies free of REUSE tags (empty, code, blank lines first, same-style comment or comment "
-            "block where the header goes, shebang, shebang + comment, CRLF, CR, byte order mark, stray terminator / opener line) x 5 "
-            "requests x {default template, text-adding template, pre-commented template on C-like styles} x {plain, --merge-copyrights}; "
+            "block where the header goes, shebang, shebang + comment, CRLF, CR, byte order mark, stray terminator / opener line) x 10 "
+            "requests (every non-empty subset of {copyright, licence, contributor}, contributor-only in every cell) x {default template, text-adding template, pre-commented template on C-like styles} x {plain, --merge-copyrights}; "
             "oracle: bytes after run 2..5 = bytes after run 1, the requested notice stands exactly once; the driver evaluates the "
             "hypotheses of C10_idem_text_partial per case and, where they hold, both runs must equal the theorem's text; "
             "non-trivial = hypotheses hold and a header was written")
@@ -140,7 +147,7 @@ class TheoremStream(Stream):
                 if tier != "thorough":
                     kinds = ["empty", "comment-first", "shebang"] + rng.sample(kinds, 4)
                 for kind in kinds:
-                    infos = INFOS if tier == "thorough" else [INFOS[0], rng.choice(INFOS[1:])]
+                    infos = INFOS if tier == "thorough" else [INFOS[0], rng.choice(INFOS[1:]), INFOS[rng.choice(CONTRIBUTOR_ONLY)]]
                     for cpr, lic, con in infos:
                         tmpl = "default"
                         r = rng.random()
@@ -298,7 +305,8 @@ class CliStream(Stream):
     rule = ("`reuse annotate` (click entry point, in process) run 5 times with identical arguments on a scratch project: file names from "
             "the extension and file-name tables (every entry in thorough, a sample covering every style in quick) x optional --style "
             "override x --multi-line where supported x --force-dot-license / --fallback-dot-license x custom template (.reuse/templates) "
-            "x --copyright-prefix x --year / --exclude-year x --contributor x --merge-copyrights x 8 tag-free bodies; oracle: the bytes "
+            "x --copyright-prefix x --year / --exclude-year x every non-empty subset of {--copyright, --license, --contributor} x "
+            "--merge-copyrights x 8 tag-free bodies; oracle: the bytes "
             "of the whole tree after runs 2..5 equal those after run 1 and the notice stands once")
     KINDS = ["empty", "code", "code-nofinal", "comment-first", "comment-block", "shebang", "shebang-comment", "crlf"]
 
@@ -321,7 +329,10 @@ class CliStream(Stream):
         for n, st in names:
             for _ in range(1 if tier != "thorough" else 2):
                 style = st
-                argv = ["annotate", "--copyright", "Jane Doe", "--license", "MIT"]
+                # every non-empty subset of the three information options
+                sub = rng.choice([7, 7, 7, 1, 2, 3, 4, 4, 5, 6])
+                argv = ["annotate"] + (["--copyright", "Jane Doe"] if sub & 1 else []) + (["--license", "MIT"] if sub & 2 else []) + (
+                    ["--contributor", "Carol Probe"] if sub & 4 else [])
                 if rng.random() < 0.25:
                     style = rng.choice([s for s in all_styles() if s.SHORTHAND])
                     argv += ["--style", style.SHORTHAND]
@@ -337,7 +348,7 @@ class CliStream(Stream):
                     argv.append("--exclude-year")
                 if rng.random() < 0.4:
                     argv += ["--copyright-prefix", rng.choice(prefixes)]
-                if rng.random() < 0.25:
+                if rng.random() < 0.25 and not sub & 4:
                     argv += ["--contributor", "Alice"]
                 if rng.random() < 0.2:
                     argv.append("--merge-copyrights")
@@ -375,9 +386,13 @@ class CliStream(Stream):
                 return "rerun-changes-tree: run %d left %r, run 1 left %r" % (i, s, first)
         if first[0] == 0:
             texts = "".join(v for k, kind, v in first[1] if kind == "file")
-            n = texts.count("Jane Doe")
-            if n != 1:
-                return "header-count: 'Jane Doe' stands %d times in the tree after %d runs" % (n, RUNS)
+            argv = case["argv"]
+            for probe, opt, val in (("Jane Doe", "--copyright", "Jane Doe"), ("SPDX-License-Identifier: MIT", "--license", "MIT"),
+                                    ("SPDX-FileContributor: Carol Probe", "--contributor", "Carol Probe")):
+                if any(a == opt and b == val for a, b in zip(argv, argv[1:])):
+                    n = texts.count(probe)
+                    if n != 1:
+                        return "header-count: %r stands %d times in the tree after %d runs" % (probe, n, RUNS)
         return None
 
     def nontrivial(self, case, impl_out):
